@@ -14,6 +14,7 @@ import (
 	runtimeapi "github.com/koordinator-sh/koordinator/apis/runtime/v1alpha1"
 	"github.com/koordinator-sh/koordinator/pkg/koordlet/runtimehooks/hooks/batchresource"
 	"github.com/koordinator-sh/koordinator/pkg/koordlet/runtimehooks/protocol"
+	"github.com/koordinator-sh/koordinator/pkg/koordlet/statesinformer"
 )
 
 // C14 composition harness (property C14, observe_at: "after the hook ran on a request built from a
@@ -269,8 +270,56 @@ func TestVerifC14Webhook(t *testing.T) {
 				}
 			}
 		}
+		// ---- the reconciler path reads the pod SPEC (not the annotation); it must agree with the proxy path ----
+		for i := range pod.Spec.Containers {
+			pod.Status.ContainerStatuses = append(pod.Status.ContainerStatuses, corev1.ContainerStatus{
+				Name: pod.Spec.Containers[i].Name, ContainerID: fmt.Sprintf("containerd://id%d", i)})
+		}
+		podMeta := &statesinformer.PodMeta{Pod: pod, CgroupDir: "kubepods/besteffort/podu"}
+		h.Op("pod %d %d %d %s", vB(isBE), vB(hasSpec), len(declared), vInts(flat))
+		h.Obs("eff 1 -100")
+		rctx := &protocol.PodContext{}
+		rctx.Request.FromReconciler(podMeta)
+		if h.Guard(func() { _ = hook.SetPodResources(rctx) }) {
+			h.Obs("pod panic")
+		} else {
+			s, v, ok := c14wShow(&rctx.Response.Resources)
+			h.Obs("pod %s", s)
+			if ok != podOK || v != podOut {
+				h.Fail("C14:reconciler-path-differs", "pod: proxy path gives %v (set=%v), reconciler path %v (set=%v)", podOut, podOK, v, ok)
+			}
+		}
+		for _, d := range ds {
+			cctx := &protocol.ContainerContext{}
+			cctx.Request.FromReconciler(podMeta, d.name, false)
+			if h.Guard(func() { _ = hook.SetContainerResources(cctx) }) {
+				if d.declared {
+					h.Obs("ctr panic")
+				}
+				continue
+			}
+			s, v, ok := c14wShow(&cctx.Response.Resources)
+			if !d.declared {
+				if ok {
+					h.Fail("C14:undeclared-container-touched", "reconciler path: container %s declares no batch resource but got %v", d.name, v)
+				}
+				continue
+			}
+			h.Obs("ctr %s", s)
+			if isBE {
+				wantM := d.mem
+				if wantM <= 0 {
+					wantM = -1
+				}
+				if !ok {
+					h.Fail("C14:webhook-container-dropped", "reconciler path: container %s declares batch resources but nothing was injected", d.name)
+				} else if v[0] != c14wStdShares(d.req) || v[1] != c14wStdQuota(d.lim) || v[2] != wantM {
+					h.Fail("C14:webhook-container-conversion", "reconciler path: container %s got %v want %d %d %d", d.name, v, c14wStdShares(d.req), c14wStdQuota(d.lim), wantM)
+				}
+			}
+		}
 		h.End()
 	}
 	h.Close("pod spec with 1-5 containers declaring batch-cpu/batch-memory requests/limits (missing request, limits only, zero, fractional/huge binary-suffix quantities, extra native entries) " +
-		"-> real webhook step mutateByExtendedResources -> runtime-proxy request -> real BatchResource hook; non-trivial = BE pod with at least one declaring container")
+		"-> real webhook step mutateByExtendedResources -> (a) runtime-proxy request built from labels+annotations, (b) reconciler request built from the pod spec -> real BatchResource hook, both compared; non-trivial = BE pod with at least one declaring container")
 }
